@@ -77,7 +77,7 @@ Qed.
 Lemma lex_one_shorter inp k skip lexeme rest :
   lex_one inp = Some (k, skip, lexeme, rest) -> (length rest < length inp)%nat /\ inp = lexeme ++ rest.
 Proof.
-  unfold lex_one. destruct (best_rule lexer_rules inp None) as [[[k' sh] n]|] eqn:E; [|discriminate].
+  unfold lex_one, lex_one_with. destruct (best_rule lexer_rules inp None) as [[[k' sh] n]|] eqn:E; [|discriminate].
   intros H; inversion H; subst.
   assert (Hpos : (1 <= n)%nat) by (eapply best_rule_pos; [|exact E]; intros; discriminate).
   split; [|symmetry; apply firstn_skipn].
@@ -168,7 +168,7 @@ Proof. rewrite skipn_app, Nat.sub_diag, skipn_all. reflexivity. Qed.
 Lemma lex_one_quoted_end p s :
   lex_one (quote p s) = Some (TEXT, false, quote p s, []).
 Proof.
-  unfold lex_one, quote.
+  unfold lex_one, lex_one_with, quote.
   rewrite (best_text _ _ (m_text_quoted_end _ (quote_body_quotes_preceded p s 34))).
   cbn [is_skip].
   replace (S (S (length (quote_body p s)))) with (length (34 :: quote_body p s ++ [34]))
@@ -179,7 +179,7 @@ Qed.
 Lemma lex_one_quoted p s tail : ends_bs s = false ->
   lex_one (quote p s ++ tail) = Some (TEXT, false, quote p s, tail).
 Proof.
-  intros Hb. unfold lex_one, quote. cbn [app]. rewrite <- app_assoc. cbn [app].
+  intros Hb. unfold lex_one, lex_one_with, quote. cbn [app]. rewrite <- app_assoc. cbn [app].
   assert (Hl : (last (quote_body p s) 34 =? 92) = false).
   { rewrite last_ends_bs by discriminate. rewrite quote_body_ends_bs. exact Hb. }
   rewrite (best_text _ _ (m_text_quoted _ tail (quote_body_quotes_preceded p s 34) Hl)).
@@ -200,7 +200,7 @@ Qed.
 (* single-character tokens used between literals *)
 Lemma lex_one_amp x : lex_one (38 :: x) = Some (AMPERSAND, false, [38], x).
 Proof.
-  unfold lex_one. rewrite best_rule_filter.
+  unfold lex_one, lex_one_with. rewrite best_rule_filter.
   change (filter (fun r => first_ok (snd r) 38) lexer_rules) with [(AMPERSAND, SLit [38]); (ERROR, SAny)].
   reflexivity.
 Qed.
@@ -208,7 +208,7 @@ Qed.
 Lemma lex_one_space c x : existsb (N.eqb c) [32; 9; 10; 13] = false ->
   lex_one (32 :: c :: x) = Some (WS, true, [32], c :: x).
 Proof.
-  intros Hc. unfold lex_one. rewrite best_rule_filter.
+  intros Hc. unfold lex_one, lex_one_with. rewrite best_rule_filter.
   change (filter (fun r => first_ok (snd r) 32) lexer_rules) with [(WS, SWs [32; 9; 10; 13]); (ERROR, SAny)].
   cbn [best_rule match_shape]. unfold m_ws. cbn [span_len]. rewrite Hc. reflexivity.
 Qed.
